@@ -68,6 +68,34 @@ fn c13_natural_replay() {
             }
         }
     }
+    // 3. other result types, signed ones with negative bounds included: the bound is applied in the result type N
+    //    ("larger or out-of-bound numbers are rejected ... for all bounds, all integer result types")
+    macro_rules! signed_bounds {
+        ($t:ty) => {
+            for n in (1usize..=300).chain([255, 256, 257, 32767, 32768, 65535, 65536, 1 << 20]) {
+                let (bytes, _k) = enc(n);
+                let mut tail = bytes.clone();
+                tail.extend_from_slice(&[0xff, 0xff]);
+                for bound in [<$t>::MIN, -300, -1, 0, 1, 2, 127, 128, 255, 256, 300, 32767, <$t>::MAX] {
+                    let unbounded = BitIter::from(tail.iter().copied()).read_natural::<$t>(None);
+                    let bounded = BitIter::from(tail.iter().copied()).read_natural::<$t>(Some(bound));
+                    let want_ok = match unbounded {
+                        Ok(v) => v <= bound,
+                        Err(_) => false,
+                    };
+                    if bounded.is_ok() != want_ok || (want_ok && bounded.ok() != unbounded.ok()) {
+                        fails.push(format!("read_natural::<{}>(Some({})) on the code of {}: unbounded gives {:?}, bounded gives {:?}", stringify!($t), bound, n, BitIter::from(tail.iter().copied()).read_natural::<$t>(None), BitIter::from(tail.iter().copied()).read_natural::<$t>(Some(bound))));
+                    }
+                }
+                if fails.len() >= 8 {
+                    break;
+                }
+            }
+        };
+    }
+    signed_bounds!(i16);
+    signed_bounds!(i32);
+    signed_bounds!(i64);
     for f in &fails {
         println!("CEX: {}", f);
     }
